@@ -304,7 +304,7 @@ def check(chk, repo, tier):
                "vyxalify normalises a number with sympy.nsimplify without "
                "rational=True (closed-form guessing)", HF, n.lineno,
                sample=ast.unparse(n)[:60])
-    chk.floor("nsimplify calls in vyxalify", len(ns), 2)
+    chk.floor("nsimplify calls in vyxalify", len(ns), 1)
     # Integer -> int arm
     int_arm = False
     for n in ast.walk(vf):
